@@ -64,6 +64,13 @@ class Connection:
       self._gfa = gfa
       try:
         self._initialize_references()
+        if self.record_type in gfa.RECORDS_WITH_NAME and \
+            not gfapy.is_placeholder(self.name) and \
+            gfa.line(self.name) is not None:
+          # (e.g. an edge which refers to its own identifier as to a segment)
+          raise gfapy.NotUniqueError(
+            "Line: {}\n".format(str(self))+
+            "The line uses its own identifier for a line it refers to")
       except:
         # the line is refused: it does not belong to the Gfa
         # and the lines it was already linked to forget it
